@@ -30,7 +30,7 @@ MUTATIONS = [
     "base_changed", "kw_changed", "kw_added", "kw_removed", "literal_lookalike", "prop_required", "prop_source", "prop_key",
     "class_swapped", "sub_replaced", "elements_reordered", "prop_removed",
 ]
-REQUIRED_COUNTERS = ["parsed_copies.equal", "parsed.trivial_composition_with_default", "pairs.rebuild", "pairs.rebuild_one_used", "pairs.root_is_subclass", "pairs.mutant", "equal.true", "equal.false", "equal_pairs.values_compared",
+REQUIRED_COUNTERS = ["pairs.alias_vs_copies", "parsed_copies.equal", "parsed.trivial_composition_with_default", "pairs.rebuild", "pairs.rebuild_one_used", "pairs.root_is_subclass", "pairs.mutant", "equal.true", "equal.false", "equal_pairs.values_compared",
                      "equal_pairs.json_compared", "reflexive", "symmetric"] + [f"mut.{m}" for m in MUTATIONS]
 
 ANCHORS = [
@@ -339,6 +339,15 @@ def judge_pair(ctx, sut, left, right, spec_l, spec_r, kind, aimed, values_n):
                     f"{json.dumps(json_r, default=repr)[:250]}", finding=finding)
 
 
+def strip_ids(node):
+    """Deep copy of a spec without node ids (so that two copies build two independent objects)."""
+    if isinstance(node, dict):
+        return {key: strip_ids(val) for key, val in node.items() if key != "id"}
+    if isinstance(node, list):
+        return [strip_ids(val) for val in node]
+    return node
+
+
 POISON = [
     {"allOf": [{"title": "Anything"}], "default": 5}, {"oneOf": [{}], "default": "d"}, {"anyOf": [True], "default": [1]},
     {"allOf": [{}, True], "default": {"a": 1}}, {"not": False, "default": 0}, {"type": ["string"], "default": "s"},
@@ -435,6 +444,31 @@ def run_shard(ctx):
         judge_pair(ctx, sut, left, twin, spec, spec, "rebuild", [], ctx.params["values"])
         if gen_dsl.count_nodes(spec) >= 2:
             ctx.nontrivial(canon([spec, "rebuild"]))
+        if idx % 6 == 1:
+            # one element OBJECT listed twice in a composition / tuple, against two equal copies of it:
+            # equal trees, so the same verdicts (identity of members must not matter)
+            child = gen_dsl.Gen(rng, max_depth=1, share=0.0, classes=False).spec(1)
+            if child["t"] != "ref":
+                child = strip_ids(child)
+                kind = rng.choice(["OneOf", "OneOf", "AnyOf", "AllOf", "tuple"])
+                shared_child = dict(copy.deepcopy(child), id=77000 + idx)
+                if kind == "tuple":
+                    alias = {"t": "Array", "kw": {}, "items": [shared_child, {"t": "ref", "id": 77000 + idx}]}
+                    copies = {"t": "Array", "kw": {}, "items": [copy.deepcopy(child), copy.deepcopy(child)]}
+                else:
+                    alias = {"t": kind, "kw": {}, "elements": [shared_child, {"t": "ref", "id": 77000 + idx}]}
+                    copies = {"t": kind, "kw": {}, "elements": [copy.deepcopy(child), copy.deepcopy(child)]}
+                try:
+                    left_a, right_c = gen_dsl.build(alias), gen_dsl.build(copies)
+                except Exception as exc:  # pylint: disable=broad-except
+                    ctx.count("alias_build_failed." + type(exc).__name__)
+                else:
+                    ctx.count("pairs.alias_vs_copies")
+                    child_schema = gen_dsl.to_schema(child)
+                    aimed = [gv.satisfy(rng, child_schema, child_schema) for _ in range(3)] \
+                        if isinstance(child_schema, dict) else []
+                    aimed += [[a, a] for a in aimed[:2]]
+                    judge_pair(ctx, sut, left_a, right_c, alias, copies, "alias_vs_copies", aimed, ctx.params["values"])
         for _ in range(ctx.params["mutants"]):
             made = mutate_spec(rng, spec)
             if not made:
